@@ -614,20 +614,71 @@ pub struct QueueCase {
     pub proto: u8,
     /// clients in connect order: 0 well-behaved; 1 already gone; 2 plaintext request already written;
     /// 3 garbage already written; 4 partial ClientHello already written, then silent; 5 partial
-    /// HTTP/2 preface already written; 6 bytes already written and already gone
+    /// HTTP/2 preface already written; 6 bytes already written and already gone; 7 partial HTTP/2
+    /// preface already written and already gone; 8 (TLS listeners; otherwise as 7) completes the TLS
+    /// handshake, then writes a partial preface and closes the session cleanly in one go
     pub clients: Vec<u8>,
     /// built `with_graceful_shutdown` on a signal that never resolves
     pub graceful: bool,
 }
 
-pub struct QueueAcceptor(pub tokio::sync::mpsc::UnboundedReceiver<hyperdriver::stream::duplex::DuplexStream>);
+/// The accepted stream: passes everything through and notices a reader that keeps polling after the
+/// end of the stream (a connection task looping on EOF): after 5000 such reads in a row it answers
+/// with an error, which ends the loop, and raises the flag.
+pub struct GuardIo {
+    inner: hyperdriver::stream::duplex::DuplexStream,
+    eof_reads: usize,
+    looped: Arc<std::sync::atomic::AtomicBool>,
+}
+impl std::fmt::Debug for GuardIo {
+    fn fmt(&self, f: &mut std::fmt::Formatter<'_>) -> std::fmt::Result {
+        write!(f, "GuardIo")
+    }
+}
+impl hyperdriver::info::HasConnectionInfo for GuardIo {
+    type Addr = hyperdriver::info::DuplexAddr;
+    fn info(&self) -> hyperdriver::info::ConnectionInfo<Self::Addr> {
+        self.inner.info()
+    }
+}
+impl tokio::io::AsyncRead for GuardIo {
+    fn poll_read(mut self: std::pin::Pin<&mut Self>, cx: &mut std::task::Context<'_>, buf: &mut tokio::io::ReadBuf<'_>) -> std::task::Poll<std::io::Result<()>> {
+        let before = buf.filled().len();
+        let r = std::pin::Pin::new(&mut self.inner).poll_read(cx, buf);
+        if let std::task::Poll::Ready(Ok(())) = &r {
+            if buf.filled().len() == before && buf.remaining() > 0 {
+                self.eof_reads += 1;
+                if self.eof_reads > 5000 {
+                    self.looped.store(true, std::sync::atomic::Ordering::SeqCst);
+                    return std::task::Poll::Ready(Err(std::io::Error::other("harness: read polled endlessly after the end of the stream")));
+                }
+            } else {
+                self.eof_reads = 0;
+            }
+        }
+        r
+    }
+}
+impl tokio::io::AsyncWrite for GuardIo {
+    fn poll_write(mut self: std::pin::Pin<&mut Self>, cx: &mut std::task::Context<'_>, buf: &[u8]) -> std::task::Poll<std::io::Result<usize>> {
+        std::pin::Pin::new(&mut self.inner).poll_write(cx, buf)
+    }
+    fn poll_flush(mut self: std::pin::Pin<&mut Self>, cx: &mut std::task::Context<'_>) -> std::task::Poll<std::io::Result<()>> {
+        std::pin::Pin::new(&mut self.inner).poll_flush(cx)
+    }
+    fn poll_shutdown(mut self: std::pin::Pin<&mut Self>, cx: &mut std::task::Context<'_>) -> std::task::Poll<std::io::Result<()>> {
+        std::pin::Pin::new(&mut self.inner).poll_shutdown(cx)
+    }
+}
+
+pub struct QueueAcceptor(pub tokio::sync::mpsc::UnboundedReceiver<hyperdriver::stream::duplex::DuplexStream>, pub Arc<std::sync::atomic::AtomicBool>);
 
 impl hyperdriver::server::conn::Accept for QueueAcceptor {
-    type Conn = hyperdriver::stream::duplex::DuplexStream;
+    type Conn = GuardIo;
     type Error = std::io::Error;
     fn poll_accept(mut self: std::pin::Pin<&mut Self>, cx: &mut std::task::Context<'_>) -> std::task::Poll<Result<Self::Conn, Self::Error>> {
         match self.0.poll_recv(cx) {
-            std::task::Poll::Ready(Some(s)) => std::task::Poll::Ready(Ok(s)),
+            std::task::Poll::Ready(Some(s)) => std::task::Poll::Ready(Ok(GuardIo { inner: s, eof_reads: 0, looped: self.1.clone() })),
             std::task::Poll::Ready(None) => std::task::Poll::Ready(Err(std::io::ErrorKind::ConnectionAborted.into())),
             std::task::Poll::Pending => std::task::Poll::Pending,
         }
@@ -641,17 +692,50 @@ impl Engine for QueueAcceptEngine {
     fn name(&self) -> &'static str {
         "queueaccept"
     }
+    fn real_time(&self) -> bool {
+        // (only for the runner's bookkeeping: a case that hangs costs 30 s of real time)
+        true
+    }
     fn run_case(&self, c: &QueueCase) -> CaseReport {
+        // The simulation runs on a thread of its own under a real-time limit: the whole case lives in
+        // virtual time and takes milliseconds, so a thread that has not come back after 30 s sits in a
+        // loop that never yields to the executor - inside the server's connection or accept code, the
+        // only code here that polls something in a loop. The thread cannot be stopped; it is left behind.
+        let (tx, rx) = std::sync::mpsc::channel();
+        let c2 = c.clone();
+        let spawned = std::thread::Builder::new().name("queueaccept-case".into()).spawn(move || {
+            let _ = tx.send(QueueAcceptEngine::run_inner(&c2));
+        });
+        if spawned.is_err() {
+            return QueueAcceptEngine::run_inner(c);
+        }
+        match rx.recv_timeout(Duration::from_secs(30)) {
+            Ok(rep) => rep,
+            Err(_) => {
+                let mut rep = CaseReport::default();
+                rep.violate("C09/server-never-yields", format!("{c:?}: the simulation (virtual time, normally milliseconds) did not come back within 30 s of real time: a connection task or the accept loop spins without yielding, and with it the whole runtime thread stands still"));
+                rep.class("faulty-before-accept");
+                rep.nontrivial = true;
+                rep
+            }
+        }
+    }
+}
+
+impl QueueAcceptEngine {
+    fn run_inner(c: &QueueCase) -> CaseReport {
         use tokio::io::{AsyncReadExt, AsyncWriteExt};
         let mut rep = CaseReport::default();
         let _ = crate::panichook::take_all();
         crate::engines::tlswire::install_provider();
         let rt = tokio::runtime::Builder::new_current_thread().enable_time().start_paused(true).build().unwrap();
         let c2 = c.clone();
+        let looped = Arc::new(std::sync::atomic::AtomicBool::new(false));
+        let looped2 = looped.clone();
         let res = std::panic::catch_unwind(std::panic::AssertUnwindSafe(|| {
             rt.block_on(async move {
                 let (tx, rx) = tokio::sync::mpsc::unbounded_channel();
-                let acceptor = hyperdriver::server::conn::Acceptor::new(QueueAcceptor(rx));
+                let acceptor = hyperdriver::server::conn::Acceptor::new(QueueAcceptor(rx, looped2.clone()));
                 let acceptor = if c2.tls { acceptor.with_tls(Arc::new(crate::engines::tlswire::server_config(0, 0, Default::default()))) } else { acceptor };
                 let svc = tower::service_fn(|_req: http::Request<hyperdriver::Body>| async move { Ok::<_, std::io::Error>(http::Response::new(hyperdriver::Body::from("queue-ok"))) });
                 let base = hyperdriver::Server::builder::<hyperdriver::Body>().with_acceptor(acceptor).with_shared_service(svc);
@@ -692,9 +776,24 @@ impl Engine for QueueAcceptEngine {
                 };
                 let mut problems = vec![];
                 let mut keep = vec![];
+                let mut keep_tls = vec![];
                 for (i, k) in c2.clients.iter().enumerate() {
                     let (mut client, server_half) = hyperdriver::stream::duplex::DuplexStream::new(8192);
-                    match k % 7 {
+                    if k % 9 == 8 && tls {
+                        let _ = tx.send(server_half);
+                        let connector = tokio_rustls::TlsConnector::from(Arc::new(crate::engines::tlswire::client_config(0)));
+                        let name = rustls::pki_types::ServerName::try_from("example.com").unwrap();
+                        if let Ok(Ok(mut t)) = tokio::time::timeout(Duration::from_secs(5), connector.connect(name, client)).await {
+                            // prefix and close_notify reach the server together
+                            let _ = t.write_all(&b"PRI * HTTP/2.0\r\n\r\nSM\r\n\r\n"[..(1 + i * 5 % 23)]).await;
+                            let _ = t.shutdown().await;
+                            // the transport stays open (a peer that has said goodbye but not hung up yet)
+                            keep_tls.push(t);
+                        }
+                        tokio::task::yield_now().await;
+                        continue;
+                    }
+                    match k % 9 {
                         0 => {
                             let _ = tx.send(server_half);
                             if let Err(e) = good(client).await {
@@ -719,6 +818,10 @@ impl Engine for QueueAcceptEngine {
                             let _ = client.write_all(&b"PRI * HTTP/2.0\r\n\r\nSM\r\n\r\n"[..(3 + i % 20)]).await;
                             keep.push(client);
                         }
+                        7 | 8 => {
+                            let _ = client.write_all(&b"PRI * HTTP/2.0\r\n\r\nSM\r\n\r\n"[..(1 + i * 5 % 23)]).await;
+                            drop(client);
+                        }
                         _ => {
                             let _ = client.write_all(b"GET /gone HTTP/1.1\r\nhost: x\r\n\r\n").await;
                             drop(client);
@@ -736,6 +839,7 @@ impl Engine for QueueAcceptEngine {
                 }
                 let end = if server.is_finished() { Some(format!("{:?}", server.await)) } else { server.abort(); None };
                 drop(keep);
+                drop(keep_tls);
                 (problems, end)
             })
         }));
@@ -761,11 +865,14 @@ impl Engine for QueueAcceptEngine {
                 }
             }
         }
+        if looped.load(std::sync::atomic::Ordering::SeqCst) {
+            rep.violate("C09/connection-task-loops-on-end-of-stream", format!("{desc}: a connection task read past the end of its stream more than 5000 times in a row"));
+        }
         rep.class("faulty-before-accept");
         if c.tls {
             rep.class("faulty-before-accept-tls");
         }
-        rep.nontrivial = c.clients.iter().any(|k| k % 7 != 0);
+        rep.nontrivial = c.clients.iter().any(|k| k % 9 != 0);
         rep.total_ops = c.clients.len() as u64;
         rep
     }
@@ -773,5 +880,5 @@ impl Engine for QueueAcceptEngine {
 
 pub fn queue_strategy() -> impl proptest::strategy::Strategy<Value = QueueCase> {
     use proptest::prelude::*;
-    (any::<bool>(), 0u8..2, proptest::collection::vec(prop_oneof![2 => Just(0u8), 5 => 1u8..7], 1..7), any::<bool>()).prop_map(|(tls, proto, clients, graceful)| QueueCase { tls, proto, clients, graceful })
+    (any::<bool>(), 0u8..2, proptest::collection::vec(prop_oneof![2 => Just(0u8), 7 => 1u8..9], 1..7), any::<bool>()).prop_map(|(tls, proto, clients, graceful)| QueueCase { tls, proto, clients, graceful })
 }
